@@ -461,6 +461,8 @@ class CallsMixin:
         if name == 'dict':
             if not vals:
                 raise Unsupported('untyped empty dict')
+            if len(vals) == 1 and vals[0].ty.kind == 'Dict' and not (node is not None and node.keywords):
+                return self.new_cell(st, vals[0].ty, self.load(vals[0], st))      # dict(d): a new dict, same content
         if name == 'sum':
             v = vals[0]
             if v.ty.kind == 'Optional':
@@ -744,6 +746,21 @@ class CallsMixin:
                 return self.ite(present, a, b, t, st)
             if name == 'copy':
                 return self.new_cell(st, obj.ty, d)
+            if name == 'pop' and vals:
+                # d.pop(k): KeyError when absent (totality obligation); d.pop(k, default): the default when absent
+                self.refuse_total_dict(obj, 'pop')
+                key = self.coerce(vals[0], kt, st)
+                kterm = self.as_term(key, st)
+                present = T.Sel(dom, kterm)
+                got = self.unbox(vt, T.Sel(val, kterm), st)
+                if len(vals) == 1:
+                    self.total(st, present, f'key present: {self.src(node)}', node)
+                    res = got
+                else:
+                    a, b, t = self.unify(got, vals[1], st)
+                    res = self.ite(present, a, b, t, st)
+                self.store(obj, T.dict_mk(obj.ty, z3.Store(dom, kterm, z3.BoolVal(False)), val), st)
+                return res
             if name == 'items':
                 return V(PY, py=IterModel(None, None, setlike=('dictitems', obj)))
             if name == 'keys':
